@@ -1,13 +1,13 @@
-import Ysshra.Gen.SnapKeyIdAux
+import Ysshra.Gen.SnapKeyId
 /-
-Pinned snapshot of Gen.SnapKeyIdAux (see extract/snap.go): the regenerated statements of the source files
+Pinned snapshot of Gen.SnapKeyId (see extract/snap.go): the regenerated statements of the source files
 equal, declaration by declaration, what the hand-written models and harnesses were written against.
 -/
 set_option maxRecDepth 100000
-namespace Ysshra.Bridge.SnapKeyIdAux
+namespace Ysshra.Bridge.SnapKeyId
 open Ysshra
 
-theorem keyid_keyid_pinned : Gen.SnapKeyIdAux.keyid_keyid = ([
+theorem keyid_keyid_pinned : Gen.SnapKeyId.keyid_keyid = ([
   (c!"const", [c!"DefaultVersion = 1", c!"MsgUnsupportedVersion = \"unsupported Key ID version: %d\""]),
   (c!"type", [c!"TouchPolicy int"]),
   (c!"const", [c!"DefaultTouch TouchPolicy = iota", c!"NeverTouch", c!"AlwaysTouch", c!"CachedTouch"]),
@@ -28,21 +28,4 @@ theorem keyid_keyid_pinned : Gen.SnapKeyIdAux.keyid_keyid = ([
   (c!"sanityCheckerNonce func(k *KeyID) error", [c!"if !k.IsNonce { return nil }", c!"if k.IsFirefighter { return fmt.Errorf(\"conflict: IsNonce and IsFireFighter are both true\") }", c!"if k.IsHeadless { return fmt.Errorf(\"conflict: IsNonce and IsHeadless are both true\") }", c!"if k.TouchPolicy != NeverTouch { return fmt.Errorf(\"conflict: IsNonce is true and TouchPolicy is not NeverTouch\") }", c!"return nil"])
 ] : List (Str × List Str)) := rfl
 
-theorem sshutils_cert_type_pinned : Gen.SnapKeyIdAux.sshutils_cert_type = ([
-  (c!"const", [c!"CriticalOptionTouchlessSudoHosts = \"touchless-sudo-hosts\""]),
-  (c!"type", [c!"Type int"]),
-  (c!"const", [c!"UnknownCertType Type = iota", c!"TouchSudoCert", c!"TouchlessCert", c!"TouchlessSudoCert", c!"FirefighterCert", c!"NonceCert", c!"_", c!"TouchlessInAgentCert", c!"TouchlessSudoInAgentCert"]),
-  (c!"var", [c!"TypeLabel = map[Type]string{ TouchSudoCert: \"TouchSudo\", TouchlessCert: \"Touchless\", TouchlessSudoCert: \"TouchlessSudo\", FirefighterCert: \"FireFighterSudo\", NonceCert: \"Nonce\", TouchlessInAgentCert: \"TouchlessInAgent\", TouchlessSudoInAgentCert: \"TouchlessSudoInAgent\", }"]),
-  (c!"GetType func(cert *ssh.Certificate) Type", [c!"certType := UnknownCertType", c!"if cert == nil { return certType }", c!"k, err := keyid.Unmarshal(cert.KeyId)", c!"if err != nil { return certType }", c!"switch { case k.IsNonce: certType = NonceCert case k.IsFirefighter && k.IsHWKey: certType = FirefighterCert case k.IsFirefighter && !k.IsHWKey: certType = TouchlessInAgentCert if cert.CriticalOptions != nil && cert.CriticalOptions[CriticalOptionTouchlessSudoHosts] != \"\" { certType = TouchlessSudoInAgentCert } case k.TouchPolicy == keyid.CachedTouch || k.TouchPolicy == keyid.AlwaysTouch: certType = TouchSudoCert case k.TouchPolicy == keyid.NeverTouch: certType = TouchlessCert if cert.CriticalOptions != nil && cert.CriticalOptions[CriticalOptionTouchlessSudoHosts] != \"\" { certType = TouchlessSudoCert } }", c!"return certType"]),
-  (c!"Label func(cert *ssh.Certificate) (string, error)", [c!"certType := GetType(cert)", c!"if certType == UnknownCertType { return \"\", errors.New(\"invalid certificate type\") }", c!"label, ok := TypeLabel[certType]", c!"if !ok { return \"\", errors.New(\"unknown certificate\") }", c!"k, err := keyid.Unmarshal(cert.KeyId)", c!"if err != nil { return \"\", fmt.Errorf(\"keyid.Unmarshal failed: err: %v\", err) }", c!"label += \"SSH-\" + k.TransID", c!"return label, nil"]),
-  (c!"(Type).String func() string", [c!"return TypeLabel[c]"])
-] : List (Str × List Str)) := rfl
-
-theorem sshutils_cert_principal_pinned : Gen.SnapKeyIdAux.sshutils_cert_principal = ([
-  (c!"const", [c!"TouchlessLabel = \":notouch\"", c!"TouchLabel = \":touch\""]),
-  (c!"GetPrincipals func(principals []string, certType Type) []string", [c!"switch certType { case UnknownCertType: return nil case TouchSudoCert: return getTouchPrincipals(principals) case TouchlessSudoCert: fallthrough case TouchlessCert: return getTouchlessPrincipals(principals) default: return principals }"]),
-  (c!"getTouchlessPrincipals func(principals []string) []string", [c!"var labeledPrincipals []string", c!"for _, p := range principals { labeledPrincipals = append(labeledPrincipals, p+TouchlessLabel) }", c!"return labeledPrincipals"]),
-  (c!"getTouchPrincipals func(principals []string) []string", [c!"var labeledPrincipals []string", c!"for _, p := range principals { labeledPrincipals = append(labeledPrincipals, p+TouchLabel) }", c!"return labeledPrincipals"])
-] : List (Str × List Str)) := rfl
-
-end Ysshra.Bridge.SnapKeyIdAux
+end Ysshra.Bridge.SnapKeyId
